@@ -319,10 +319,6 @@ def getitem(eng, base, idx):
             return wrap_native(base[idx])
         except (IndexError, KeyError) as e:
             raise ProgExc(type(e), str(e))
-    if type(base).__module__ == "pandas.core.frame" or type(base).__name__ in ("DFrame", "DLoc", "DSeries"):
-        from . import npmodels
-
-        return npmodels.getitem(eng, base, idx)
     if hasattr(base, "__pyvc_getitem__"):
         return base.__pyvc_getitem__(eng, idx)
     raise Unsupported(f"subscript of {type(base).__name__}")
@@ -411,10 +407,8 @@ def setitem(eng, base, idx, val):
         return
     if isinstance(base, Obj):
         return eng.call(eng.getattr_(base, "__setitem__"), [idx, val], {})
-    if type(base).__name__ in ("DFrame", "DLoc"):
-        from . import npmodels
-
-        return npmodels.setitem(eng, base, idx, val)
+    if hasattr(base, "__pyvc_setitem__"):
+        return base.__pyvc_setitem__(eng, idx, val)
     raise Unsupported(f"subscript store on {type(base).__name__}")
 
 
@@ -1058,7 +1052,33 @@ def _b_id(eng, args, kwargs):
     return getattr(args[0], "uid", id(args[0]))
 
 
+def deepcopy_value(v, memo=None):
+    """copy.deepcopy: a structurally equal object graph with fresh allocations."""
+    from .values import snapshot, next_uid
+
+    m = {}
+    c = snapshot(v, m)
+    seen = set()
+    for o in m.values():
+        if id(o) in seen:
+            continue
+        seen.add(id(o))
+        if hasattr(o, "uid"):
+            o.uid = next_uid()
+        if hasattr(o, "frozen"):
+            o.frozen = False
+    return c
+
+
+def _b_deepcopy(eng, args, kwargs):
+    eng.assumptions.add("copy.deepcopy returns an equal, fully fresh object graph")
+    return deepcopy_value(args[0])
+
+
+import copy as _copy  # noqa: E402
+
 BUILTIN_MODELS = {
+    _copy.deepcopy: _b_deepcopy,
     len: _b_len, range: _b_range, isinstance: _b_isinstance, bool: _b_bool, int: _b_int, float: _b_float,
     list: _b_list, tuple: _b_tuple, dict: _b_dict, collections.defaultdict: _b_defaultdict, zip: _b_zip,
     enumerate: _b_enumerate, map: _b_map, iter: _b_iter, next: _b_next, min: _b_min, max: _b_max,
